@@ -274,8 +274,13 @@ const transmitTimeout = 500 * time.Millisecond
 
 func (w *world) opts(id string) hcluster.Options {
 	dir := filepath.Join(w.cl.Base, id)
+	snapThreshold, snapInterval := uint64(20), 300*time.Millisecond
+	if w.cs.Directed != "" {
+		// only the scripted snapshot
+		snapThreshold, snapInterval = 1<<20, time.Hour
+	}
 	return hcluster.Options{ID: id, Dir: dir, HeartbeatTimeout: time.Second, ElectionTimeout: time.Second, LeaderLease: 800 * time.Millisecond,
-		NoSnapshotOnClose: true, SnapshotThreshold: 20, SnapshotInterval: 300 * time.Millisecond,
+		NoSnapshotOnClose: true, SnapshotThreshold: snapThreshold, SnapshotInterval: snapInterval,
 		Tune: func(st *store.Store) {
 			w.mu.Lock()
 			w.insts[id]++
